@@ -15,6 +15,7 @@ import Cx.DriverSeqOps
 import Cx.DriverCompSim
 import Cx.DriverMetaFind
 import Cx.DriverMetaFind2
+import Cx.DriverMetaFindAll
 import Cx.DriverRevInner
 import Cx.DriverRevAnchored
 import Cx.DriverRevSuffixSet
@@ -28,7 +29,7 @@ def handlers : List (List String → Option String) :=
   [Cx.DriverCompile.handle?, Cx.DriverLit.handle?, Cx.DriverPike.handle?, Cx.DriverFast.handle?, Cx.DriverCompDfa.handle?, Cx.DriverCompSim.handle?, Cx.DriverCost.handle?,
    Cx.DriverConfig.handle?, Cx.DriverCaps.handle?, Cx.DriverDfa.handle?, Cx.DriverUtf8Range.handle?, Cx.DriverRev.handle?, Cx.DriverRevSuffix.handle?,
    Cx.DriverRevInner.handle?, Cx.DriverRevAnchored.handle?, Cx.DriverRevSuffixSet.handle?, Cx.DriverMultilineRevSuffix.handle?, Cx.DriverMetaFind.handle?, Cx.DriverSeqOps.handle?,
-   Cx.DriverMetaFind2.handle?]
+   Cx.DriverMetaFind2.handle?, Cx.DriverMetaFindAll.handle?]
 
 def answer (line : String) : String :=
   let toks := tokens line
